@@ -39,6 +39,10 @@ struct Observer {
     jitter_class: &'static str,
     prov: Prov,
     can_sign: bool,
+    /// Some = the observer runs with `cache_proposals(false)`: the application keeps the
+    /// `cached_proposal()` bytes itself and re-inserts them before a commit (the flow of
+    /// examples/basic_server_usage.rs)
+    ext_cache: Option<Vec<Vec<u8>>>,
 }
 
 pub struct C16 {
@@ -53,6 +57,28 @@ pub struct C16 {
 
 fn ek<E: std::fmt::Debug>(e: &E) -> String {
     err_kind(e).split('/').next().unwrap_or("").to_string()
+}
+
+/// Deliver `m` to an observer the way its application would: an observer that keeps proposals
+/// outside the group stores `cached_proposal()` and re-inserts everything before a commit.
+fn obs_feed(o: &mut Observer, kind: &str, m: MlsMessage) -> Result<(), mls_rs::error::MlsError> {
+    let is_commit = kind == "commit" || kind == "external_commit";
+    if is_commit {
+        if let Some(cache) = &o.ext_cache {
+            for b in cache {
+                o.eg.insert_proposal(mls_rs::group::CachedProposal::from_bytes(b)?);
+            }
+        }
+    }
+    let r = obs_process(&mut o.eg, m)?;
+    if let Some(cache) = o.ext_cache.as_mut() {
+        match r {
+            ExternalReceivedMessage::Proposal(d) => cache.push(d.cached_proposal().to_bytes()?),
+            ExternalReceivedMessage::Commit(_) => cache.clear(),
+            _ => {}
+        }
+    }
+    Ok(())
 }
 
 /// both entry points of the observer, alternating
@@ -87,7 +113,7 @@ fn member_view(g: &VGroup) -> (Vec<u8>, Vec<(u32, Vec<u8>)>, Vec<u8>) {
 }
 
 impl C16 {
-    fn build_client(&self, w: &World, prov: Prov, jitter: Option<u64>, with_signer: bool) -> mls_rs::external_client::ExternalClient<ECfg> {
+    fn build_client(&self, w: &World, prov: Prov, jitter: Option<u64>, with_signer: bool, cache_proposals: bool) -> mls_rs::external_client::ExternalClient<ECfg> {
         let mut b = ExternalClientBuilder::new()
             .identity_provider(VIdent::default())
             .crypto_provider(AnyCrypto::new(prov))
@@ -95,6 +121,9 @@ impl C16 {
             .custom_proposal_types([ProposalType::new(CUSTOM_PROP), ProposalType::new(CUSTOM_PROP_PATH)]);
         if let Some(j) = jitter {
             b = b.max_epoch_jitter(j);
+        }
+        if !cache_proposals {
+            b = b.cache_proposals(false);
         }
         if let (true, Some((sk, si))) = (with_signer, &self.signer) {
             b = b.signer(sk.clone(), si.clone());
@@ -126,8 +155,9 @@ impl C16 {
             Err(_) => return,
         };
         let tree = (!with_tree).then(|| w.g(src).export_tree().into_owned());
-        let client = self.build_client(w, prov, j, can_sign);
-        w.log(json!({"op":"observer_joins","jitter":jc,"epoch":epoch,"with_tree":with_tree}));
+        let ext_mode = !can_sign && self.next_jitter % 3 == 0;
+        let client = self.build_client(w, prov, j, can_sign, !ext_mode);
+        w.log(json!({"op":"observer_joins","jitter":jc,"epoch":epoch,"with_tree":with_tree,"external_proposal_cache":ext_mode}));
         match guarded(|| client.observe_group(gi, tree, None)) {
             Ok(Ok(eg)) => {
                 w.out.cov.bump(&format!("observer_started:jitter_{jc}"));
@@ -137,7 +167,11 @@ impl C16 {
                     jitter_class: jc,
                     prov,
                     can_sign,
+                    ext_cache: ext_mode.then(Vec::new),
                 });
+                if ext_mode {
+                    w.out.cov.bump("observer_started:external_proposal_cache");
+                }
             }
             Ok(Err(e)) => w.violate(format!("C16|observer_cannot_start|{}", ek(&e)), format!("epoch {epoch}: {e:?}")),
             Err(p) => w.violate("C16|panic|observe_group", p),
@@ -149,7 +183,7 @@ impl C16 {
             let m = msg.clone();
             w.out.cov.eval(Some(fnv(format!("feed|{kind}|{}", o.jitter_class).as_bytes())));
             w.out.cov.bump(&format!("observer_fed:{kind}"));
-            match guarded(|| obs_process(&mut o.eg, m)) {
+            match guarded(|| obs_feed(o, kind, m)) {
                 Ok(Ok(_)) => {}
                 Ok(Err(e)) => w.violate(
                     format!("C16|observer_rejects_honest_{kind}|{}", ek(&e)),
@@ -229,13 +263,13 @@ impl Hooks for C16 {
         // snapshot / restore of a random observer, then lockstep with the un-restored one
         if !self.observers.is_empty() && self.rng.chance(1, 3) {
             let k = self.rng.below(self.observers.len());
-            let (snap, prov, jitter, can_sign) = {
+            let (snap, prov, jitter, can_sign, cache) = {
                 let o = &self.observers[k];
-                (o.eg.snapshot(), o.prov, o.jitter, o.can_sign)
+                (o.eg.snapshot(), o.prov, o.jitter, o.can_sign, o.ext_cache.is_none())
             };
             let without_tree = self.rng.chance(1, 3);
             let restored = guarded(|| {
-                let client = self.build_client(w, prov, jitter, can_sign);
+                let client = self.build_client(w, prov, jitter, can_sign, cache);
                 if without_tree {
                     let mut e2 = self.observers[k].eg.clone();
                     let s2 = e2.snapshot_without_ratchet_tree();
@@ -260,6 +294,29 @@ impl Hooks for C16 {
                 }
                 Ok(Err(e)) => w.violate(format!("C16|observer_restore_failed|{}", ek(&e)), format!("observer {k}: {e:?}")),
                 Err(p) => w.violate("C16|panic|observer_restore", p),
+            }
+        }
+        // an outsider proposes itself (sender type new_member_proposal)
+        if !self.observers.is_empty() && w.active().len() < w.cfg.max_members && self.rng.chance(1, 4) {
+            let src = w.active()[0];
+            if let Ok(Ok(gi)) = guarded(|| w.g(src).group_info_message(true)) {
+                let p = w.new_party();
+                let r = {
+                    let c = &w.parties[p].client;
+                    guarded(|| c.external_add_proposal(&gi, None, vec![], Default::default(), Default::default(), None))
+                };
+                // the newcomer has no Welcome bookkeeping in the driver: it stays a leaf nobody drives
+                w.parties[p].status = Status::Ghost;
+                if let Ok(Ok(m)) = r {
+                    w.log(json!({"op":"new_member_proposal","by":p}));
+                    w.out.cov.bump("new_member_proposal_issued");
+                    for to in w.active() {
+                        if let Err(e) = w.deliver(to, &m) {
+                            w.violate(format!("C16|member_rejects_new_member_proposal|{}", e.split('(').next().unwrap_or("")), format!("member {to}: {e}"));
+                        }
+                    }
+                    self.feed_all(w, "proposal", &m);
+                }
             }
         }
         // an external-sender proposal from the observer that may sign
@@ -305,7 +362,7 @@ impl Hooks for C16 {
                                     continue;
                                 }
                                 let mm = m.clone();
-                                match guarded(|| obs_process(&mut o.eg, mm)) {
+                                match guarded(|| obs_feed(o, "proposal", mm)) {
                                     Ok(Ok(_)) => {}
                                     Ok(Err(e)) => w.violate(format!("C16|observer_rejects_external_sender_proposal|{}", ek(&e)), format!("observer {j}: {e:?}")),
                                     Err(p) => w.violate("C16|panic|observer_external_proposal", p),
